@@ -332,14 +332,14 @@ pub fn run(tier: Tier, seed: u64) -> Report {
     if !rep.absorb("face-pentagon", r) {
         return rep;
     }
-    let r = run_pbt("sphere", seed, tier.pick(60_000, 3_000_000), sphere_points, check_sphere, sp_json);
+    let r = run_pbt("sphere", seed, tier.pick(400_000, 12_000_000), sphere_points, check_sphere, sp_json);
     if !rep.absorb("sphere", r) {
         return rep;
     }
     let r = run_pbt(
         "planar",
         seed,
-        tier.pick(40_000, 2_000_000),
+        tier.pick(250_000, 8_000_000),
         || {
             (0u8..12, 0u8..10, 0u8..5, 0.0f64..1.0, -13.0f64..0.0, any::<bool>())
                 .prop_map(|(face, k, mode, u, log_d, side)| PlanarCase { face, k, mode, u, log_d, side })
